@@ -290,6 +290,14 @@ class Parser:
     def p_import(self, p: P) -> None:
         # Get filepath to import.
         importing_path = p[len(p) - 2]
+        if "\0" in importing_path:
+            # The os.path functions raise ValueError on such a path.
+            raise GrammarError(
+                message="Invalid import path, null character found.",
+                filepath=self.current_filepath(),
+                token="import",
+                lineno=p.lineno(1),
+            )
         filepath = self._get_child_filepath(importing_path)
 
         # Check if this filepath already in parsing.
